@@ -198,6 +198,16 @@ def cases(ctx, tier):
         if a < 128: continue
         for shape in ['ones', None, 'onebit']:
             mulcase('mpn_mul_fft_main', a, b, 0, shape, 'fft-main')
+    # mpn_toom3_mul_n called directly: the operands of its five recursive products (evaluation points, sign of the point at -1)
+    # and the product against the Toom-3 model (C01_toom3_mul); every n mod 3, r = n - 2k from 1 to k
+    for n in (list(range(17, 60)) + [97, 98, 99, 100, 101, 147, 148, 149, 200] if quick else list(range(17, 260))):
+        for shape in (['uniform', 'ones', 'runs'] if quick else ['uniform', 'ones', 'runs', 'top1', 'lowzero', 'sparse']):
+            a = limbs_value(rng, n, shape); b = limbs_value(rng, n, rng.choice([shape, 'uniform']))
+            if rng.random() < 0.3:      # a0 + a2 close to a1: the sign of the point at -1 flips on a single limb
+                k = (n + 2) // 3; Bk = 1 << (64 * k)
+                a0 = a % Bk; a2 = a >> (128 * k); a1 = (a0 + a2 + rng.choice([-1, 0, 1])) % Bk
+                a = a0 + (a1 << (64 * k)) + (a2 << (128 * k))
+            out.append(('mpn_toom3_points %x %s %s' % (n, hx(a), hx(b)), 'toom3-points'))
     # single-bit / sparse operands at FFT sizes: pointwise products hit the residue 2^(nw) = -1
     for _ in range(24 if quick else 300):
         a = rng.randrange(F, F + 600); b = rng.choice([a, a, rng.randrange(min(a, max(F // 3 + 1, 2 * F - a + 1)), a + 1)])
